@@ -215,6 +215,16 @@ def check_cv(ctx, e, sz, f, g, info):
         pass
     if not np.array_equal(base[out].values.reshape(-1), np.array(want)):
         bad.append("combine into %s gives %s, by-name sum %s" % (out, base[out].values.reshape(-1).tolist(), want))
+    if len(out) >= 2:
+        # two target cliques that both contain every source: each source is absorbed exactly once (by one of them)
+        out2 = tuple(reversed(out))
+        dom2 = Domain(list(out), [sz[a] for a in out])
+        base2 = CliqueVector.zeros(dom2, [out, out2])
+        base2.combine(cv1)
+        tot = base2[out].values + np.transpose(base2[out2].values, [out2.index(a) for a in out])
+        if not np.array_equal(tot.reshape(-1), np.array(want)):
+            bad.append("combine into two containing cliques %s, %s absorbs a source other than exactly once: %s, by-name sum %s" % (
+                out, out2, tot.reshape(-1).tolist(), want))
     if bad:
         ctx.violation("CliqueVector arithmetic differs from clique-by-clique semantics: " + "; ".join(bad[:3]), info,
                       {"kind": "cliquevector"})
